@@ -465,6 +465,10 @@ class FiberEngine : public Engine {
         p.seed = seed;
         size_t ntasks = r.chance(1, 2) ? r.range(2, 4) : r.range(2, tier == Tier::Thorough ? 16 : 10);
         if (r.chance(1, 12)) ntasks = 16;
+        // 1 run in 300: few tasks, few calls, but inputs of thousands of elements - code paths that
+        // exist only above a size threshold (sampling above 10000 values, bulk paths above 4096)
+        bool bigrun = r.chance(1, 300);
+        if (bigrun) ntasks = r.range(2, 3);
         size_t ninputs = r.range(1, std::min<size_t>(ntasks, 4));
         switch (r.below(8)) {
         case 0:
@@ -495,19 +499,34 @@ class FiberEngine : public Engine {
             in.set("id", i);
             size_t n = r.chance(1, 2) ? r.range(1, 16) : r.range(1, 64);
             if (r.chance(1, 8)) n = r.range(65, 400); // e.g. more than 256 dictionary entries, several BP128 blocks
-            in.mkarr("values") = gen_array(r, n, (int)r.below(ARR_NCLASSES));
+            int cls = (int)r.below(ARR_NCLASSES);
+            if (bigrun) {
+                n = r.chance(1, 2) ? r.range(4096, 4600) : r.range(10001, 10200);
+                static const int big_cls[] = {ARR_POOL, ARR_FULL64, ARR_CLUSTERED, ARR_LOWCARD, -1, -1};
+                cls = r.pick(big_cls);
+            }
+            if (cls < 0) { // unsorted values inside one narrow window at an arbitrary base
+                uint64_t base = r.chance(1, 2) ? r.below(1000) : (r.next() >> r.range(1, 40));
+                uint64_t span = r.chance(1, 2) ? 60000 : r.range(300, 65000);
+                auto &vv = in.mkarr("values");
+                for (size_t q = 0; q < n; q++) vv.push_back(base + r.below(span));
+            } else
+                in.mkarr("values") = gen_array(r, n, cls);
             p.ops.push_back(in);
         }
         // a run focuses on a few call kinds so that several tasks are inside the same function
         std::vector<std::string> menu;
         size_t nk = r.range(1, 4);
-        for (size_t i = 0; i < nk; i++) menu.push_back(r.pick(call_kinds));
+        static const char *big_kinds[] = {"adaptive.rt", "adaptive.rt", "adaptive.forced", "dict.rt", "dict.rt", "pfor.rt",
+                                          "for.rt", "rle.rt", "bp128.64", "bp128d.64", "deltau.rt"};
+        if (bigrun) nk = r.range(1, 2);
+        for (size_t i = 0; i < nk; i++) menu.push_back(bigrun ? std::string(r.pick(big_kinds)) : std::string(r.pick(call_kinds)));
         for (size_t t = 0; t < ntasks; t++) {
-            size_t ncalls = r.range(1, 4);
+            size_t ncalls = bigrun ? 1 : r.range(1, 4);
             uint64_t own_input = r.below(ninputs);
             for (size_t j = 0; j < ncalls; j++) {
                 Op c;
-                c.kind = r.chance(4, 5) ? menu[r.below(menu.size())] : std::string(r.pick(call_kinds));
+                c.kind = (bigrun || r.chance(4, 5)) ? menu[r.below(menu.size())] : std::string(r.pick(call_kinds));
                 c.set("task", t);
                 c.set("in", r.chance(1, 2) ? 0 : own_input); // inputs shared with probability 1/2
                 if (c.kind == "adaptive.forced") c.set("enc", r.below(6));
